@@ -221,7 +221,19 @@ var c03 = Register(&Prop[ProgCase]{ID: "C03", Name: "differential", Gen: genProg
 func stressProg(s *StressCase) *ProgCase {
 	var e *m.Expr
 	e = gen.StressFixed(s.Kind, s.N, s.Sel)
-	return &ProgCase{E: e, Env: map[string]*m.Type{}, Vals: map[string]*m.Val{}, Extra: run.StdHarness}
+	extra := run.StdHarness
+	switch s.Kind {
+	case "many-args", "many-lazy-args":
+		// a strict and a lazy host function of exactly n parameters
+		ps := make([]*m.Type, s.N)
+		for i := range ps {
+			ps[i] = m.Num
+		}
+		extra = append(append([]ref.FunSig(nil), extra...),
+			ref.FunSig{Name: "ov", Params: ps, Ret: m.Str, Impl: "ov#many"},
+			ref.FunSig{Name: "lz_last", Params: ps, Ret: m.Num, Impl: "lz_last", Lazy: true})
+	}
+	return &ProgCase{E: e, Env: map[string]*m.Type{}, Vals: map[string]*m.Val{}, Extra: extra}
 }
 
 func checkC03Stress(s *StressCase) *Outcome {
@@ -273,6 +285,10 @@ func eachStress(extraSizes []int) func(yield func(*StressCase) bool) {
 				if n <= 2000 || strings.HasPrefix(k, "wide") {
 					sizes = append(sizes, n)
 				}
+			}
+			if strings.HasPrefix(k, "many-") {
+				// argument counts around the 8-bit operand
+				sizes = []int{1, 3, 200, 254, 255, 256, 257, 300}
 			}
 			if k == "long-arms" {
 				// around the 16-bit jump range: 12 bytes of code per unit of n, the jumps of the
